@@ -69,7 +69,7 @@ func optionOrder(r *core.Run) {
 			return true
 		})
 		for _, c := range calls {
-			o := r.Add("R-DET/N3", fmt.Sprintf("%s.%s | OptionsFor(%s)", printRel, core.FuncName(fd), core.ExprStr(c.Args[0])), c.Pos(), "order of the options printed for an element")
+			o := r.Add("R-DET/N3", fmt.Sprintf("%s.%s | OptionsFor(%s)", printRel, core.FuncName(fd), core.NormExpr(info, c.Args[0])), c.Pos(), "order of the options printed for an element")
 			if sorted {
 				o.Auto("re-sorted by qualified name in the same function")
 			} else if !r.Table("det_sites", o) {
